@@ -14,6 +14,7 @@ Any other unrealizable peptide is a VIOLATION with the input as replay.
 """
 import json, os, glob, collections
 from harness.lib import oracle as O, cvgen as CG, cvcheck as CK
+from harness.lib import cvgen2 as CG2, cvcheck2 as CK2      # alternative-splicing / circRNA streams
 from harness.props import c01 as C01
 
 PROPERTY = 'C02'
@@ -21,8 +22,8 @@ ROOT = os.path.dirname(os.path.dirname(os.path.dirname(os.path.abspath(__file__)
 
 def sizes(ctx):
     if ctx.quick:
-        return dict(core=260, excon=110, nola=30, wide=24, retry=90, flags=50, fusion=70)
-    return dict(core=15000, excon=6000, nola=800, wide=800, retry=3000, flags=3000, fusion=3000)
+        return dict(core=260, excon=110, nola=30, wide=24, retry=90, flags=50, fusion=70, altsplice=400, circ=0)
+    return dict(core=15000, excon=6000, nola=800, wide=800, retry=3000, flags=3000, fusion=3000, altsplice=4000, circ=3000)
 
 def limited(rng, base):
     return dict(base, mvpn=rng.choice([1, 2, 3, 7]), avpm=rng.choice([0, 1, 2]),
@@ -88,6 +89,8 @@ def gen_cases(ctx):
         c['stream'] = 'retry'
         c['tuple_kind'] = kind
         cases.append(c)
+    cases += altsplice_cases(ctx, n.get('altsplice', 0), la_other)
+    cases += circ_cases(ctx, n.get('circ', 0), la_other)
     return cases
 
 def corpus_cases():
@@ -231,7 +234,7 @@ def run(ctx):
         rep = []
         for c in corp:
             rep += [c] * c.get('repeat', 1)
-        judge(CK.run_batch(ctx, rep, tag='c02c'), violations, stats)
+        judge(CK2.run_batch(ctx, rep, tag='c02c'), violations, stats)
         seen = set(); uniq = []
         for v in violations:
             k = (v.get('finding'), json.dumps(v['replay_obj'], sort_keys=True))
@@ -239,7 +242,7 @@ def run(ctx):
                 seen.add(k); uniq.append(v)
         violations = uniq
     cases = gen_cases(ctx)
-    stream_wall = CK.run_streams(ctx, cases, judge, violations, stats, want_may=True, tag='c02')
+    stream_wall = CK2.run_streams(ctx, cases, judge, violations, stats, want_may=True, tag='c02')
     keep, cnt = [], collections.Counter()
     for v in violations:
         if v.get('finding'):
@@ -247,22 +250,22 @@ def run(ctx):
             if cnt[v['finding']] > 40:
                 continue
         keep.append(v)
-    CK.annotate_stability(ctx, keep, judge, want_may=True)
+    CK.annotate_stability(ctx, [v for v in keep if not CK2.is_ext(v.get('replay_obj', {}).get('case', {}))], judge, want_may=True)
     samples = [dict(CK.strip_case(c), world='<omitted>') for c in cases[:3]]
     return dict(evaluations=sum(v for k, v in stats.items() if k.startswith('runs:')),
                 distinct_nontrivial=stats['nontrivial'],
                 rule='one evaluation = one callVariant run with binding complexity limits; every emitted sequence is tested '
                      'with the proved decider realizable; non-trivial = the run emitted at least one peptide',
-                samples=samples, distribution=CK.dist_of(cases), stats=dict(stats),
+                samples=samples, distribution=CK.dist_of(cases), distribution_ext=CK2.dist_of([c for c in cases if CK2.is_ext(c)]), stats=dict(stats),
                 slack={'may_novel_minus_out': stats['slack_may_minus_out'], 'out_minus_must': stats['slack_out_minus_must'],
                        'out_peptides': stats['out_peptides']},
                 known_finding_counts=dict(cnt), engine_tied_by='correspondence', stream_wall_s=stream_wall,
                 violations=keep,
-                assumptions=['records are SNV / MNV / INDEL on linear transcripts (fusion, alternative splicing, circRNA not generated: property partial for them)',
+                assumptions=['records are SNV / MNV / INDEL on linear transcripts, fusions with exonic breakpoints, alternative-splicing <DEL>/<INS>/<SUB> records (stream altsplice); circRNA records, fusion with intronic breakpoints and AS combined with fusion are not generated: property partial for them',
                              'timeouts are forced inside the worker process (monkeypatched call_variant_peptides_wrapper), real SIGALRM timeouts are not exercised',
                              'gene -> transcript coordinates by the generator\'s ground truth; mass thresholds off the 1e-4 grid',
                              '<= 7 records per cluster'],
-                trusted_base=['glue coq/Extract/Api_Spec.v', 'case generator harness/lib/cvgen.py and signature predicates harness/lib/cvsig.py'])
+                trusted_base=['glue coq/Extract/Api_Spec.v, Api_SpecAS.v', 'case generators harness/lib/cvgen.py, cvgen2.py (gene -> transcript / donor / fragment coordinates by ground truth) and signature predicates harness/lib/cvsig.py, cvsig2.py'])
 
 def replay(ctx, obj):
     c = obj['case']
@@ -273,10 +276,37 @@ def replay(ctx, obj):
         c['runs'][1]['skip_oracle'] = True
     n = int(obj.get('repeat', 4))
     stats = collections.Counter(); violations = []
-    judge(CK.run_batch(ctx, [json.loads(json.dumps(c)) for _ in range(n)], tag='c02r'), violations, stats)
+    judge(CK2.run_batch(ctx, [json.loads(json.dumps(c)) for _ in range(n)], tag='c02r'), violations, stats)
     seen = set(); out = []
     for v in violations:
         k = (v.get('finding'), v['what'])
         if k not in seen:
             seen.add(k); out.append(v)
     return dict(violations=out)
+
+
+# ------------------------------------------------------------------ appended: alternative splicing / circRNA
+def altsplice_cases(ctx, n, la_other):
+    """stream 'altsplice' (Model/SpecAS.v): 1-3 <DEL>/<INS>/<SUB> records on one transcript + small records at the
+    event boundaries; in half of the cases also inside the donor segments (known finding C02-as-donor-record).
+    Every FASTA sequence must be realizable on a transcript (linear oracle) or on the transcript carrying a
+    compatible combination of the AS records (realizable_as)."""
+    rng = ctx.rng
+    out = []
+    for i in range(n):
+        c = CG2.gen_as_case(rng, nvar=rng.choice([0, 1, 2, 2, 3, 3, 4] if ctx.quick else [0, 1, 2, 3, 3, 4, 5]))
+        c['runs'] = [limited(rng, CG.gen_run(rng, rule='trypsin' if rng.random() < 0.7 else la_other[i % len(la_other)], exc_on=False))]
+        c['stream'] = 'altsplice'
+        out.append(c)
+    return out
+
+def circ_cases(ctx, n, la_other):
+    """stream 'circ' (Model/SpecCirc.v): circRNA records (exon / retained-intron fragments) + small records"""
+    rng = ctx.rng
+    out = []
+    for i in range(n):
+        c = CG2.gen_circ_case(rng)
+        c['runs'] = [limited(rng, CG.gen_run(rng, rule='trypsin' if rng.random() < 0.7 else la_other[i % len(la_other)], exc_on=False))]
+        c['stream'] = 'circ'
+        out.append(c)
+    return out
